@@ -313,8 +313,30 @@ func verifC07InboundSTUN() {
 	} else {
 		src = verifSrcV4()
 	}
+	// the source may already be in the per-candidate cache that answers data
+	// datagrams (it sent data before): the cache is for data, a STUN message is
+	// judged by the agent alone
+	if verifChoice(2) == 1 {
+		verifReach("source-cached")
+		w.locals[0].remoteCandidateCaches.Store(toAddrPortKey(w.remotes[0].addrPort()), w.remotes[0])
+	}
+	for _, r := range w.remotes {
+		verifBaseOf(r).setLastReceived(verifNow().Add(-time.Hour))
+	}
+	before := w.snap()
 	w.locals[0].handleInboundPacket(b, src)
+	after := w.snap()
 	verifAssert(a.buf.Count() == 0, "STUN-traffic-never-reaches-the-reader")
 	verifAssert(stun.IsMessage(b), "is-stun")
+	// a message without USERNAME and MESSAGE-INTEGRITY authenticates nothing:
+	// no observable effect, liveness included; only a Binding indication from a
+	// known remote address may refresh that remote's liveness
+	t := uint16(b[0])<<8 | uint16(b[1])
+	isIndication := (t>>4)&1 == 1 && (t>>8)&1 == 0
+	if isIndication {
+		verifReach("indication")
+		after.lastRecv, before.lastRecv = nil, nil
+	}
+	verifAssert(verifNothingChanged(before, after), "unauthenticated-STUN-at-the-socket-changes-nothing")
 	verifReach("done")
 }
